@@ -148,8 +148,13 @@ func rulesC14(c *Ctx) {
 			}
 			found = true
 			// b is the entry of the failing edge
+			// AppendError directly, or through a private helper that appends on every path (fail(task, ctx, err))
+			appends := ipEvent(func(in ssa.Instruction) bool {
+				ci := callInfo(in, nil, 0)
+				return ci != nil && ci.Kind == "call" && ci.Method != nil && ci.Method.Name() == "AppendError"
+			}, 1)
 			exits := RunPaths(runGo, nil, 0, func(st int, in ssa.Instruction, d bool) int {
-				if ci := callInfo(in, nil, 0); ci != nil && ci.Method != nil && ci.Method.Name() == "AppendError" && !d {
+				if !d && appends(in) {
 					return 1
 				}
 				return st
